@@ -271,6 +271,32 @@ theorem reduction_semantics (r g b v : Rat) :
   · simp [hz q hq]
   · simp [hz q hq]
 
+/-- the `hsv` reduction (value channel inside the user's hue / saturation windows, else 0) maps zero to zero, and a
+pixel outside the SATURATION window is zeroed whatever the hue window is -/
+theorem hsv_reduction (a1 a2 a3 a4 : Rat) :
+    ZeroPreserving (some (Stage.pure (StageFn.hsv a1 a2 a3 a4).eval)) ∧
+    (∀ p : Px, ¬ (a3 < (hsvOf p).2.1 ∧ (hsvOf p).2.1 < a4) → hsvReduce a1 a2 a3 a4 p = 0) := by
+  constructor
+  · intro f hf a ha p hp x hx
+    cases hf
+    simp only [Stage.pure, StageFn.eval, List.mem_map] at hp
+    obtain ⟨q, hq, rfl⟩ := hp
+    simp only [List.mem_singleton] at hx
+    subst hx
+    have hz : ∀ k, listGetD q k 0 = 0 := by
+      intro k
+      simp only [listGetD]
+      cases hk : q[k]? with
+      | none => rfl
+      | some y => simpa using ha q hq y (List.mem_of_getElem? hk)
+    simp only [hsvReduce, hsvOf, hz]
+    split_ifs <;> rfl
+  · intro p h
+    simp only [hsvReduce]
+    rw [if_neg]
+    intro hc
+    exact h ⟨hc.2.2.1, hc.2.2.2⟩
+
 /-- **No wrap-around for integer images** (`uint8`: bits = 8, `uint16`: bits = 16). The code promotes both images
 with `img_as(float)` (value / (2^bits − 1)) before `_subtract_background`; then, for every difference option and all
 pixel values of the type, the difference is exactly the (clipped / absolute / plain) *integer* difference divided by
